@@ -17,7 +17,7 @@ Codes == {Orig(f) : f \in Fns} \cup {Var(f) : f \in Fns} \cup {VarNested("make",
 Paths == Fns \cup {Bare(f) : f \in Fns}
 State0 == [cur |-> [p \in Paths |-> IF p \in Fns THEN Orig(p) ELSE <<"none">>],
            back |-> [c \in Codes |-> IF c[1] = "orig" THEN {c[2]} ELSE {}],
-           code |-> [f \in Fns |-> Orig(f)], count |-> [f \in Fns |-> 0], built |-> {}]
+           code |-> [f \in Fns |-> Orig(f)], count |-> [f \in Fns |-> 0], built |-> {}, fixed |-> {}]
 \* registering code c (with its nested code objects nc(n)) as if defined at path `at`
 Register(st, at, c, nc(_), g) ==
   LET ps == {at} \cup {J(at, n) : n \in Nested(g)}
@@ -36,12 +36,19 @@ Apply(st, g, new) ==
   IN [st EXCEPT !.cur = [p \in Paths |-> IF p \in moved THEN new ELSE st.cur[p]],
                 !.back = [x \in Codes |-> IF x = new THEN st.back[x] \cup moved ELSE st.back[x]],
                 !.code = [st.code EXCEPT ![g] = new]]
+\* a function tooled in place (st.fixed) is left alone by later probes (_tooler: fully tooled, no stack)
 ActOp(st, g, mech) ==
+  IF g \in st.fixed THEN st ELSE
   LET st1 == IF g \in st.built THEN st ELSE Transform(st, g, mech)
       st2 == Apply(st1, g, Var(g))
   IN [st2 EXCEPT !.count = [st.count EXCEPT ![g] = @ + 1], !.built = st.built \cup {g}]
+\* tooled.inplace(g): transform(), update_cache_entry(g, old code, new code), g.__code__ = new code - for good
+InplaceOp(st, g) ==
+  LET st1 == Apply(Transform(st, g, "tree"), g, Var(g))
+  IN [st1 EXCEPT !.built = @ \cup {g}, !.fixed = @ \cup {g}]
 \* pop() calls _apply every time: the current code is "installed" again, which re-asserts all of its paths
 DeactOp(st, g) ==
+  IF g \in st.fixed THEN st ELSE
   LET st1 == Apply(st, g, IF st.count[g] = 1 THEN Orig(g) ELSE Var(g))
   IN [st1 EXCEPT !.count = [st.count EXCEPT ![g] = @ - 1]]
 ResolveSet(st, p) == {f \in Fns : st.code[f] = st.cur[p]}
